@@ -1,8 +1,9 @@
 ----------------------------- MODULE MC_Delivery -----------------------------
 (* Bounded universes for Delivery (payload half of C20).                    *)
-(* MC: every case of the universes is one initial state `c`; the laws of    *)
-(* the statement are invariants, checked by TLC on the reference AND on the *)
-(* implementation-shaped definitions (the latter as P \/ KnownGap).         *)
+(* MC: every case of the universes is one state `c` (a successor of a root  *)
+(* state); the laws of the statement are invariants, checked by TLC on the  *)
+(* reference AND on the implementation-shaped definitions (the latter as    *)
+(* P \/ KnownGap: EmptyValueGap, F6Gap).                                    *)
 (* Gen_Delivery prints cases with the expected payloads as JSON.            *)
 EXTENDS Delivery, TLC, Json
 
@@ -30,7 +31,7 @@ Rep(w, k)      == [i \in 1 .. k |-> w]
 Limits(s)      == 0 .. (Bytes(s) + 2)
 
 -----------------------------------------------------------------------------
-(* MC: one case per initial state.                                          *)
+(* MC: one case per state.                                                  *)
 \* (Initial states are evaluated by one thread; so the initial states are "roots"
 \* - the first element of the sequence of a case - and the cases are their
 \* successors, generated and checked by all workers.)
